@@ -338,9 +338,35 @@ fn statement_label_p() -> impl Parser<StringView, Output = Statement, Error = Pa
     // labels can have dots
     // the colon is not consumed: it is the separator between the label and what follows,
     // which may be a statement on the same line (`Handler: PRINT ERR`)
-    identifier()
+    // a name followed by a colon is a label only when it is the first thing on its line:
+    // in `X = 1: Bump: PRINT X` the second statement is a call of the SUB Bump
+    AtLineStart
+        .and_keep_right(identifier())
         .and_keep_left(colon().peek())
         .map(|token| Statement::Label(CaseInsensitiveString::new(token.to_text())))
+}
+
+/// Succeeds, without consuming anything, if only blanks stand between
+/// the start of the current line and the current position.
+struct AtLineStart;
+
+impl Parser<StringView> for AtLineStart {
+    type Output = ();
+    type Error = ParserError;
+
+    fn parse(&mut self, input: &mut StringView) -> Result<(), ParserError> {
+        let mut i = input.index();
+        while i > 0 {
+            match input.char_at(i - 1) {
+                ' ' | '\t' => i -= 1,
+                '\r' | '\n' => return Ok(()),
+                _ => return default_parse_error(),
+            }
+        }
+        Ok(())
+    }
+
+    fn set_context(&mut self, _ctx: &()) {}
 }
 
 fn statement_go_to_p() -> impl Parser<StringView, Output = Statement, Error = ParserError> {
